@@ -527,6 +527,14 @@ class CNF(SimpleSequence[Clause]):
         self._inequality_assertion(False, k, in_list)
 
     def _inequality_assertion(self, assert_less_than: bool, k: int, in_list: Sequence[Var]):
+        # The subtraction below has no spare sign bit when `k` and the count have
+        # the same bit length, so it overflows once `k` is out of the count's
+        # range. Those comparisons are constant anyway: decide them directly.
+        if assert_less_than and k > len(in_list):
+            return
+        if not assert_less_than and k >= len(in_list) and in_list:
+            self.prepend(CNF([Clause(in_list[0]), Clause(~in_list[0])]))
+            return
         in_binary = int_to_binary(k)
         sum_bits = self.pop_count(in_list, len(in_binary)+1)
         k_vars = self.get_n_fresh(len(in_binary))
